@@ -39,7 +39,7 @@ Ids(s) == 1..(IF s.maxT + 2 <= MaxId THEN s.maxT + 2 ELSE MaxId)
 Calls(s) ==
     (IF KAddNode \in Kinds /\ ~HasSeg
        THEN {<<KAddNode, n, t, i, f>> : n \in Node, t \in Times, i \in Ids(s), f \in {0, 1}}
-            \cup {<<KAddNode, n, t, i, f>> : n \in Node, t \in Times, i \in {1, s.maxT + 1}, f \in {2, 3, 16, 17}}
+            \cup {<<KAddNode, n, t, i, f>> : n \in Node, t \in Times, i \in {1, s.maxT + 1}, f \in {2, 3, 16, 17, 32, 33}}
             \cup {<<KAddNode, n, 0, 1, f>> : n \in Node, f \in {4, 8}}
        ELSE {})
     \cup (IF KAddEdge \in Kinds THEN {<<KAddEdge, u, v, f, 0>> : u \in Node, v \in Node, f \in {0, 1}} ELSE {})
